@@ -69,6 +69,8 @@ pub struct B<'a, 'b> {
     blocks: u32,
     /// inside the header (condition / range) of a control-flow statement
     header: u32,
+    /// labels declared by the enclosing routine (goto targets / labelled statements)
+    labels: Vec<&'static str>,
 }
 
 const IDS: &[&str] = &[
@@ -81,6 +83,7 @@ const TYPES: &[&str] = &[
     "Integer", "string", "Boolean", "TObject", "Double", "Cardinal", "TFoo", "TBar", "IIntf",
     "Byte", "Char", "TList", "Pointer", "Int64", "TArray", "Variant",
 ];
+const LABELS: &[&str] = &["L1", "Retry", "Done", "Index", "Name", "Message", "Read", "Default", "10", "99", "Stored"];
 const NUMS: &[&str] = &["0", "1", "2", "10", "255", "1.5", "3.14", "1e5", "2.5E-3", "$FF", "$0A1b", "%101", "1_000", "100000"];
 const STRS: &[&str] = &[
     "'a'", "''", "'hello world'", "'it''s'", "#13#10", "'a'#13#10'b'", "#$0D", "'x' + 'y'",
@@ -91,7 +94,7 @@ const METHOD_DIRS: &[&str] = &["overload", "virtual", "override", "abstract", "s
 
 impl<'a, 'b> B<'a, 'b> {
     pub fn new(t: &'a mut Tape<'b>, fuel: i32, opts: Opts) -> Self {
-        B { t, p: Prog::default(), fuel, depth: 0, anon: 0, next_line_start: true, opts, uniq: 0, blocks: 0, header: 0 }
+        B { t, p: Prog::default(), fuel, depth: 0, anon: 0, next_line_start: true, opts, uniq: 0, blocks: 0, header: 0, labels: Vec::new() }
     }
 
     fn push(&mut self, text: &str, kind: Kind) -> u32 {
@@ -222,6 +225,15 @@ impl<'a, 'b> B<'a, 'b> {
 
     // ---------------------------------------------------------------- expressions
 
+    fn label_ref(&mut self) {
+        let i = self.t.below(self.labels.len() as u32) as usize;
+        let l = self.labels[i];
+        if l.as_bytes()[0].is_ascii_digit() {
+            self.push(l, Kind::Number);
+        } else {
+            self.word(l);
+        }
+    }
     fn number(&mut self) {
         let s = self.t.pick_str(NUMS);
         self.push(s, Kind::Number);
@@ -575,6 +587,15 @@ impl<'a, 'b> B<'a, 'b> {
                 }
             }
             self.nl();
+            if !self.labels.is_empty() && self.anon == 0 && self.t.chance(1, 5) {
+                // labelled statement: the label is rendered on a line of its own at statement level
+                let l = self.p.toks.len() as u32;
+                self.label_ref();
+                self.op(":");
+                self.mark(l, opener, 0);
+                self.tag("labelled-stmt");
+                self.nl();
+            }
             let first = self.p.toks.len() as u32;
             let last = i + 1 == n;
             self.stmt(false);
@@ -956,6 +977,12 @@ impl<'a, 'b> B<'a, 'b> {
     }
 
     fn simple_stmt(&mut self) {
+        if !self.labels.is_empty() && self.anon == 0 && self.t.chance(1, 5) {
+            self.kw("goto");
+            self.label_ref();
+            self.tag("goto");
+            return;
+        }
         // call
         self.id();
         if self.t.chance(1, 2) {
@@ -1697,6 +1724,12 @@ impl<'a, 'b> B<'a, 'b> {
     }
 
     fn routine(&mut self) {
+        let saved = std::mem::take(&mut self.labels);
+        self.routine_inner();
+        self.labels = saved;
+    }
+
+    fn routine_inner(&mut self) {
         self.nl();
         let is_fn = self.t.chance(1, 2);
         let h = self.kw(if is_fn { "function" } else { "procedure" });
@@ -1727,10 +1760,23 @@ impl<'a, 'b> B<'a, 'b> {
         if self.t.chance(1, 6) {
             self.const_section();
         }
-        if self.t.chance(1, 12) {
+        if self.t.chance(1, 5) {
             self.nl();
             self.kw("label");
-            self.named("L1");
+            let n = 1 + self.t.below(3) as usize;
+            let start = self.t.below(LABELS.len() as u32) as usize;
+            self.labels = (0..n).map(|k| LABELS[(start + k * 3) % LABELS.len()]).collect();
+            for k in 0..n {
+                if k > 0 {
+                    self.op(",");
+                }
+                let l = self.labels[k];
+                if l.as_bytes()[0].is_ascii_digit() {
+                    self.push(l, Kind::Number);
+                } else {
+                    self.word(l);
+                }
+            }
             self.op(";");
             self.tag("label");
         }
